@@ -588,7 +588,7 @@ func checkC06(c *hx.Checker) {
 					}
 				}
 			}
-			for _, n := range []int{nAct - 1, nAct + 1} {
+			for _, n := range []int{nAct - 1, nAct + 1, 2 * nAct} {
 				if n < 1 {
 					continue
 				}
@@ -600,7 +600,9 @@ func checkC06(c *hx.Checker) {
 				ja := ar.job()
 				ja.tags = append(ja.tags, "activation-arity")
 				if n > nAct {
-					ja.dom = hx.DNoPanic // ONNX allows longer lists for bidirectional nodes; not asserted
+					// a forward node uses exactly nAct activations: surplus entries cannot be honoured, and "the list is
+					// honoured or refused, never ignored" leaves refusal (a list of 2*nAct belongs to a bidirectional node)
+					ja.dom, ja.exp = hx.DError, nil
 				}
 				jobs = append(jobs, ja)
 			}
